@@ -245,6 +245,73 @@ def mutate_all(obj, depth=0):
         obj.clear()
 
 
+def check_schemaless_results_independent(rep):
+    """results of decoding without a guiding type share nothing with each other or with the codec's prototypes: decode the
+    same octets twice (same and different codecs), mutate the first result everywhere, the second must read and re-encode
+    as before, and a third decode afterwards must give the original result - empty containers, the boundary case in which
+    the decoder has no component to build the result from, included"""
+    from pyasn1.codec.ber import decoder as bdec, encoder as benc
+    from pyasn1.codec.cer import decoder as cdec
+    from pyasn1.codec.der import decoder as ddec
+    inputs = ['3000', '3100', '30800000', '31800000', '300430003000', '3006300031003000', 'a0023000', 'a080308000000000',
+              '30030201 05'.replace(' ', ''), '3006020105020106', '30080201050401613000', '310302010a', '0400', '0403616263',
+              '240704026162040163', '3005a003020105', '300a3003020101300302010 2'.replace(' ', '')]
+    decs = [('ber', bdec), ('cer', cdec), ('der', ddec)]
+
+    def grow(obj, depth=0):
+        """add something to every container reachable in obj"""
+        if depth > 6:
+            return
+        if isinstance(obj, (univ.SequenceOf, univ.SetOf)):
+            for i in range(len(obj)):
+                grow(obj.getComponentByPosition(i, instantiate=False), depth + 1)
+            obj.append(univ.Integer(77))
+        elif isinstance(obj, (univ.Sequence, univ.Set)):
+            for i in range(len(obj)):
+                c = obj.getComponentByPosition(i, instantiate=False)
+                if c is not None and c is not pbase.noValue:
+                    grow(c, depth + 1)
+            try:
+                obj.setComponentByPosition(len(obj), univ.Integer(77))
+            except Exception:  # noqa
+                pass
+
+    def look(obj):
+        try:
+            return (type(obj).__name__, obj.prettyPrint(), bytes(benc.encode(obj)).hex())
+        except Exception as e:  # noqa
+            return ('unencodable', type(e).__name__, '')
+    for hx in inputs:
+        data = bytes.fromhex(hx)
+        for (n1, d1) in decs:
+            for (n2, d2) in decs:
+                try:
+                    a, _ = d1.decode(data)
+                    b, _ = d2.decode(data)
+                except Exception:  # noqa
+                    continue
+                rep.evaluations += 1
+                rep.count('schemaless-independence')
+                case = {'kind': 'schemaless-independence', 'bytes': hx, 'first': n1, 'second': n2}
+                before = look(b)
+                if a is b:
+                    rep.fail('schemaless-results-same-object', 'two schemaless decodes of %s (%s, %s) returned the same object' % (hx, n1, n2), case)
+                    continue
+                grow(a)
+                after = look(b)
+                if after != before:
+                    rep.fail('schemaless-results-share-state', 'changing the result of one schemaless decode of %s (%s) changed the result of '
+                             'another (%s): %s -> %s' % (hx, n1, n2, before[1][:80].replace('\n', ' '), after[1][:80].replace('\n', ' ')), case)
+                try:
+                    c, _ = d2.decode(data)
+                except Exception as e:  # noqa
+                    rep.fail('schemaless-history-dependent', 'a decode of %s that succeeded fails after a result was changed: %s' % (hx, e), case)
+                    continue
+                if look(c) != before:
+                    rep.fail('schemaless-history-dependent', 'schemaless decode of %s (%s) gives %s after the result of an earlier decode was changed, '
+                             '%s before' % (hx, n2, look(c)[1][:80].replace('\n', ' '), before[1][:80].replace('\n', ' ')), case)
+
+
 def history(rep, cases, rng, log=False):
     """a sequence of calls sharing schema objects and codec singletons vs each call alone on fresh objects"""
     steps = []
@@ -490,6 +557,7 @@ def run(rep, tier, seed):
             pool.append(case)
     fixed_histories(rep)
     cross_call_forms(rep)
+    check_schemaless_results_independent(rep)
     for i in range(60 if tier == 'quick' else 3000):
         history(rep, rng.sample(pool, min(len(pool), 6)), rng)
     for i in range(60 if tier == 'quick' else 3000):
